@@ -249,6 +249,11 @@ func NumericMatchChar(op NumericOp, a *SexpChar, b Sexp) (Sexp, error) {
 	case *SexpFloat:
 		return tres, nil
 	case *SexpInt:
+		if tres.Val != int64(rune(tres.Val)) {
+			// does not fit in a char: keep the integer rather
+			// than its low 32 bits, as (op int char) does.
+			return tres, nil
+		}
 		return &SexpChar{Val: rune(tres.Val)}, nil
 	}
 	return SexpNull, errors.New("unexpected result")
